@@ -1,6 +1,7 @@
 """Per-property claim texts for MANIFEST.json (see DESIGN.md §5 for the full scope statements)."""
 
 BMC = "bounded model checking (Kani goto program of the real code + CBMC/CaDiCaL), differential against a spec-derived reference model"
+BMC_M = BMC + "; plus MIR -> SMT-LIB2 (cvc5 --solve-bv-as-int=sum) for the ASCII85 group inverse over all 2^32 groups"
 NOTE = ("Trusted: rustc/Kani 0.68 codegen, CBMC 6.11, CaDiCaL, the reference models in harness/*.rs, cuts X1-X10 of DESIGN.md §4 "
         "(drop glue of PdfError & co. emptied, fmt::format stubbed). Holds only inside the per-obligation bounds listed in the evidence "
         "file; everything named 'Out' in DESIGN.md §5 is outside the claim.")
@@ -38,7 +39,7 @@ CLAIMS = {
              "the PNG-spec reconstruction for all rows/filters/previous rows, Paeth for all 2^24 triples; flate_decode geometry is "
              "checked on concrete parameter tuples with symbolic pixel data through a stored deflate block. Deflate/LZW bit streams, "
              "filter chains and parameter parsing are Out.",
-        design_ref="§5 C05", note=NOTE, technique=BMC),
+        design_ref="§5 C05", note=NOTE, technique=BMC_M),
     "C06": dict(
         text="Per-object key material of Algorithm 1/1.A for every file key, key size, object number and generation: exactly "
              "key[..n] || id[0..3] || gen[0..2] (|| 'sAlT') is hashed and the first min(n+5,16) digest bytes key the cipher; "
@@ -80,7 +81,7 @@ CLAIMS = {
              "decoder (written from the Adobe definition) and yields the input, and decode_85 agrees with that reference decoder "
              "on every such text -- composition gives the round trip; word_85 inverts the base-85 digits for all 2^40 groups. "
              "Flate and LZW encoders are Out.",
-        design_ref="§5 C16", note=NOTE, technique=BMC),
+        design_ref="§5 C16", note=NOTE, technique=BMC_M),
     "C18": dict(
         text="Option reader only: for the scalar readers (i32, f32, bool, Name, Rectangle) and for RcRef / MaybeRef, an optional "
              "entry that is a reference to a free or never-defined object (every object number and generation) reads as None in "
@@ -100,8 +101,8 @@ CLAIMS = {
 NOT_APPLICABLE = {
     "C09": "needs save -> bytes -> reload through serializer, parser and Dictionary: not encodable (parser::parse on 2 symbolic bytes "
            "does not finish in CBMC); the in-memory read-your-writes step did not terminate either (DESIGN §5 C09)",
-    "C10": "builder output validity needs whole-file serialisation and parsing; only the xref-stream writer/reader inverse is "
-           "encodable and is reported under C02",
+    "C10": "builder output validity needs whole-file serialisation and parsing; even the xref-stream writer/reader inverse lemma ran "
+           "out of solver memory (symbolic field widths), see DESIGN §5",
     "C12": "call sequences over Storage with globalcache::SyncCache (threads, condvars, HashMap) and typed loads are not encodable",
     "C13": "Kani/CBMC do not model Rust threads; an SMT model of the guard protocol would not be the real code",
     "C15": "derived readers/writers operate on Dictionary (IndexMap/hashbrown); the smallest model did not finish in 15 min",
